@@ -1452,6 +1452,30 @@ fn c15(r: &Runner) {
             }
         }
     });
+    // LARGE balanced operands (where a sub-quadratic multiplication would take over) into accumulators that are full, nearly
+    // full or empty: every partial product must still arrive
+    {
+        let g = golden(200);
+        let mut cases: Vec<(Limbs, Limbs, Limbs)> = vec![];
+        for n in [16usize, 31, 32, 33, 40, 64, 65] {
+            let ops: Vec<Limbs> = vec![vec![u64::MAX; n], (0..n).map(|i| g[i]).collect(), (0..n).map(|i| g[i + 70] | 1).collect(), { let mut v = vec![0u64; n]; v[0] = 1; v[n - 1] = 1 << 63; v }];
+            for al in [2 * n, 2 * n + 1, 2 * n + 3, 2 * n - 1, n] {
+                let accs: Vec<Limbs> = vec![vec![0; al], vec![u64::MAX; al], { let mut v = vec![u64::MAX; al]; v[0] = 0; v }, { let mut v = vec![u64::MAX; al]; for x in v.iter_mut().take(n) { *x = 0; } v }, { let mut v = vec![0u64; al]; for x in v.iter_mut().skip(n) { *x = u64::MAX; } v }, (0..al).map(|i| g[(i + 17) % 200]).collect()];
+                for a in &ops {
+                    for b in &ops {
+                        for acc in &accs {
+                            cases.push((acc.clone(), a.clone(), b.clone()));
+                        }
+                    }
+                }
+            }
+        }
+        r.universe(&format!("addmul with large balanced operands (16..=65 limbs) into full / nearly full / empty accumulators of 2n-1..2n+3 limbs: {} cases", cases.len()), 0, cases.len(), |i, l| {
+            let (acc, a, b) = &cases[i];
+            l.states(1);
+            k::exec(l, 0, K::addmul, &[vu(acc), vu(a), vu(b)]);
+        });
+    }
     // cmp on windows at different addresses modulo 16: equal-length slices of every length 0..=12 (and 17, 33), a pair of
     // differing positions, offsets (0,1), (1,0), (1,1), (0,0)
     {
